@@ -238,6 +238,7 @@ INVARIANT Inv_C14
 INVARIANT Inv_Predict
 INVARIANT Inv_Obj
 INVARIANT HeapFollowsLast
+INVARIANT Inv_ModelsAsConfigured
 INVARIANT EmitHist
 PROPERTY ModelsNeverChange
 CHECK_DEADLOCK FALSE
